@@ -63,6 +63,82 @@ def make_src(rng, shape, dtype):
     return np.array([rng.randint(lo, hi) for _ in range(n)], dtype=dtype).reshape(shape)
 
 
+DT_RANGE = {"uint8": (0, 255), "int8": (-128, 127), "int16": (-32768, 32767), "uint16": (0, 65535),
+            "int32": (-2**31, 2**31 - 1)}
+
+
+def nodata_config(rng, dt):
+    """(src_nodata, dst_nodata): none, dst only, src only, both equal, both different, NaN variants"""
+    if dt == "bool":
+        return rng.choice([(None, None), (None, False), (None, True)])
+    if dt.startswith("float"):
+        return rng.choice([(None, None), (None, -9999.0), (None, float("nan")), (-9999.0, None), (7.5, 7.5), (7.5, -9999.0),
+                           (float("nan"), float("nan")), (float("nan"), -9999.0), (-9999.0, float("nan")), (None, 0.0)])
+    lo, hi = DT_RANGE[dt]
+    v, w = rng.choice([lo, hi, 0, 7]), rng.choice([lo, hi, 0, 5, 1])
+    return rng.choice([(None, None), (None, w), (v, None), (v, v), (v, w if w != v else (5 if v != 5 else 9))])
+
+
+def content_src(rng, shape, dt, sn, dn):
+    """raster content with the awkward values sprinkled in: NaN / ±inf / dtype min,max / values equal to either nodata"""
+    src = make_src(rng, shape, dt)
+    if dt == "bool":
+        return src
+    specials = []
+    if dt.startswith("float"):
+        specials = [float("nan"), float("inf"), float("-inf"), 0.0, -0.0, 3.0e38 if dt == "float32" else 1.0e308, -9999.0, 7.5]
+    else:
+        lo, hi = DT_RANGE[dt]
+        specials = [lo, hi, 0, lo + 1, hi - 1]
+        if dt == "int32" and sn is not None:
+            # GDAL compares int32 pixels with src_nodata in single precision: neighbours of an extreme nodata value are
+            # masked too (backend behaviour, outside odc-geo) - keep such neighbours out of the content
+            specials = [lo, hi, 0]
+    for v in (sn, dn):
+        if v is not None:
+            specials.append(v)
+    pick = [v for v in specials if rng.random() < 0.5]
+    flat = src.reshape(-1)
+    for v in pick:
+        for _ in range(max(1, flat.size // 12)):
+            flat[rng.randrange(flat.size)] = v
+    return src
+
+
+def eff_dst_nodata(dt, sn, dn):
+    """value GDAL fills with: dst_nodata, else (wrapper default) NaN for floats, else src_nodata, else 0"""
+    if dn is not None:
+        return dn
+    if dt.startswith("float"):
+        return float("nan")
+    if sn is not None:
+        return sn
+    return False if dt == "bool" else 0
+
+
+def same_val(arr, v):
+    if isinstance(v, float) and v != v:
+        return np.isnan(arr)
+    return arr == v
+
+
+def ref_paste(src, dshape, r, A, sn, dn):
+    """reference for warp(src, src_nodata, dst_nodata): block copy (mirrored), source nodata pixels become destination
+    nodata, everything outside the block is destination nodata"""
+    dt = src.dtype.name
+    w = eff_dst_nodata(dt, sn, dn)
+    out = np.full(dshape, w, dtype=src.dtype)
+    blk = src[r.roi_src].copy()
+    if sn is not None:
+        blk[same_val(blk, sn)] = w
+    if A.e < 0:
+        blk = blk[::-1, :]
+    if A.a < 0:
+        blk = blk[:, ::-1]
+    out[r.roi_dst] = blk
+    return out, w
+
+
 def do_paste(src, dshape, r, A, nodata):
     """what a consumer of ReprojectInfo does when paste_ok and read_shrink == 1"""
     out = np.full(dshape, nodata, dtype=src.dtype)
@@ -253,18 +329,29 @@ def run(R: Run):
                 sshape, dshape = (rng.randint(8, 60), rng.randint(8, 60)), (rng.randint(4, 30), rng.randint(4, 30))
             sg = (rng.choice([1, 1, -1]), rng.choice([1, 1, -1]))
             rt = ttol_c * rng.choice([0, 0.5, 0.9, 1.1, 3]) * rng.choice([1, -1])
-            S = Affine.identity() if rng.random() < 0.5 else gen_src_affine(rng)
-            Mx = Affine((k + dlt) * sg[0], 0, k * (rng.randint(-dshape[1], sshape[1] // k) + rt) + (k * dshape[1] if sg[0] < 0 else 0),
-                        0, (k + dlt2) * sg[1], k * (rng.randint(-dshape[0], sshape[0] // k) + rt / 2) + (k * dshape[0] if sg[1] < 0 else 0))
+            S = Affine.identity() if rng.random() < 0.3 else (gen_src_affine(rng) if rng.random() < 0.5
+                                                              else c03.float_src_affine(rng, rng.choice(c03.RES_CHOICES)))
+            ox, oy = rng.randint(-dshape[1], sshape[1] // k), rng.randint(-dshape[0], sshape[0] // k)
             kind = f"tol-{stol_c:g}"
+            if k >= 2 and rng.random() < 0.6:  # read_shrink > 1, chip 1e2 .. 1e5 overview pixels into a large source
+                if stol_c >= 1e-3:
+                    dlt = dlt2 = k * stol_c * rng.choice([0.9, 0.4, 0.1, 1e-3, 0]) * rng.choice([1, -1])
+                ox, oy = int(10 ** rng.uniform(2, 5)), int(10 ** rng.uniform(2, 5))
+                sshape = (k * (oy + rng.randint(dshape[0] // 2, 2 * dshape[0])), k * (ox + rng.randint(dshape[1] // 2, 2 * dshape[1])))
+                rt = ttol_c * rng.choice([0, 0.3, 0.6]) * rng.choice([1, -1])
+                kind += "-far"
+            Mx = Affine((k + dlt) * sg[0], 0, k * (ox + rt) + (k * dshape[1] if sg[0] < 0 else 0),
+                        0, (k + dlt2) * sg[1], k * (oy + rt / 2) + (k * dshape[0] if sg[1] < 0 else 0))
         else:  # arbitrary doubles: realistic resolution, residues on both sides of the tolerance
-            resn = rng.choice([30, 10, 0.00025, 25, 1 / 3])
-            S = Affine.translation(rng.uniform(-1e5, 1e5), rng.uniform(-1e5, 1e5)) * Affine.scale(resn, -resn)
-            resd = rng.choice([0, 0, 0.01, -0.02, 0.04, -0.045, 0.049, 0.051, -0.06, 0.1, 0.3])
+            resn = rng.choice(c03.RES_CHOICES)
+            S = c03.float_src_affine(rng, resn)
+            resd = rng.choice([0, 0, 0.01, -0.02, 0.04, -0.045, 0.049, 0.051, -0.06, 0.1, 0.3, -0.4, 0.6, 0.7])
             Mx = Affine.translation(rng.randint(-dshape[1], sshape[1]) + resd, rng.randint(-dshape[0], sshape[0]) + resd / 2) * \
                 Affine.scale(rng.choice([1, 1, 1, -1]), rng.choice([1, 1, 1, -1]))
             if rng.random() < 0.3:
                 Mx = Mx * Affine.scale(1 + rng.choice([-1, 1]) * rng.uniform(1e-5, 9e-4))
+            elif rng.random() < 0.2:
+                Mx = Mx * Affine.scale(rng.choice([1.4, 0.7, 1.1, 2.0, 3.0]))
             kind = "float"
         D = S * Mx
         ttol = rng.choice([0.05, 0.05, 0.05, 2**-5, 0.26, 0.45]) if ttol_c is None else ttol_c
@@ -320,6 +407,9 @@ def run(R: Run):
         R.oracle(ok, "paste-roi-shape-mismatch", case, f"roi_src={r.roi_src} roi_dst={r.roi_dst}", sig=f"plan|paste1|{kind}|shapes")
         if not ok:
             continue
+        if sshape[0] * sshape[1] > 4_000_000:
+            R.count("plan|paste1|too-large-for-pixel-compare")
+            continue
         drift, has_res = drift_of(A6, rs, dshape)
         pure = (A6[1] == 0 and A6[3] == 0 and abs(abs(A6[0]) - 1) < stq and abs(abs(A6[4]) - 1) < stq)
         key = "paste-scale-drift-differs-from-warp" if (has_res and pure and drift >= Fraction(1, 2)) else "paste-differs-from-warp"
@@ -329,25 +419,35 @@ def run(R: Run):
         edge = (np.abs(px - np.round(px)) < 1e-6) | (np.abs(py - np.round(py)) < 1e-6)
         dts = DTYPES if (i % 3 == 0 or R.quick is False) else [DTYPES[i % len(DTYPES)], DTYPES[(i // 3) % len(DTYPES)]]
         for dt in dts:
-            nodata = NODATA[dt]
-            src = make_src(rng, sshape, dt)
-            try:
-                w = rio_reproject(src, np.full(dshape, nodata, dtype=dt), src_g, dst_g, "nearest", dst_nodata=nodata)
-                p = do_paste(src, dshape, r, A, nodata)
-            except Exception as ex:  # pylint: disable=broad-except
-                R.oracle(False, "paste-or-warp-raises", {**case, "dtype": dt}, f"{type(ex).__name__}: {ex}", sig="plan|raises")
-                continue
-            if dt.startswith("float"):
-                neq = ~((p == w) | (np.isnan(p) & np.isnan(w)))
-            else:
-                neq = p != w
-            neq = neq & ~edge
-            what = ""
-            if neq.any():
-                iy, ix = np.argwhere(neq)[0]
-                what = (f"{int(neq.sum())} of {neq.size} pixels differ, first at (row {iy}, col {ix}): pasted {p[iy, ix]} "
-                        f"warp {w[iy, ix]}; roi_src={r.roi_src} roi_dst={r.roi_dst}")
-            R.oracle(not neq.any(), key, {**case, "dtype": dt}, what, sig=f"plan|paste1|{kind}|{dt}")
+            # plain content with the default nodata first, then awkward content under a random nodata configuration
+            for rnd in (0, 1):
+                sn, dn = (None, NODATA[dt]) if rnd == 0 else nodata_config(rng, dt)
+                src = make_src(rng, sshape, dt) if rnd == 0 else content_src(rng, sshape, dt, sn, dn)
+                cfg = {"dtype": dt, "src_nodata": repr(sn), "dst_nodata": repr(dn), "content": "plain" if rnd == 0 else "special"}
+                try:
+                    w = rio_reproject(src, np.full(dshape, 77 if dt != "bool" else True, dtype=dt), src_g, dst_g, "nearest",
+                                      src_nodata=sn, dst_nodata=dn)
+                    p, weff = ref_paste(src, dshape, r, A, sn, dn)
+                except Exception as ex:  # pylint: disable=broad-except
+                    R.oracle(False, "paste-or-warp-raises", {**case, **cfg}, f"{type(ex).__name__}: {ex}", sig="plan|raises")
+                    continue
+                if dt.startswith("float"):
+                    neq = ~((p == w) | (np.isnan(p) & np.isnan(w)))
+                else:
+                    neq = p != w
+                neq = neq & ~edge
+                k2 = key
+                what = ""
+                if neq.any():
+                    iy, ix = np.argwhere(neq)[0]
+                    what = (f"{int(neq.sum())} of {neq.size} pixels differ, first at (row {iy}, col {ix}): pasted {p[iy, ix]} "
+                            f"warp {w[iy, ix]}; src_nodata={sn} dst_nodata={dn} roi_src={r.roi_src} roi_dst={r.roi_dst}")
+                    # GDAL nudges VALID source pixels that happen to equal the destination nodata value
+                    inblk = np.zeros(dshape, dtype=bool)
+                    inblk[r.roi_dst] = True
+                    if key == "paste-differs-from-warp" and (neq <= (inblk & same_val(p, weff))).all():
+                        k2 = "paste-differs-from-warp-valid-pixel-equals-dst-nodata"
+                R.oracle(not neq.any(), k2, {**case, **cfg}, what, sig=f"plan|paste1|{kind}|{dt}|{cfg['content']}")
         # --- model of the paste operation vs the numpy paste above (small cases)
         if sshape[0] * sshape[1] <= 200 and dshape[0] * dshape[1] <= 200 and i % 4 == 0:
             src = make_src(rng, sshape, "int16")
